@@ -19,7 +19,7 @@ _tls = threading.local()
 PATH_FUNCS = {  # name -> indexes of path arguments
     "stat": (0,), "lstat": (0,), "rename": (0, 1), "replace": (0, 1), "remove": (0,), "unlink": (0,),
     "mkdir": (0,), "rmdir": (0,), "chmod": (0,), "listdir": (0,), "scandir": (0,), "open": (0,),
-    "truncate": (0,), "link": (0, 1), "symlink": (0, 1), "utime": (0,), "access": (0,),
+    "truncate": (0,), "link": (0, 1), "symlink": (0, 1), "utime": (0,), "access": (0,), "statvfs": (0,),
 }
 # existence questions: os.path.* report a failing stat as "absent"; pathlib's let some errors through, but a store that asks
 # "is it there?" through pathlib and maps an OSError to "no" asks the same question - neither is a fault site
